@@ -13,8 +13,10 @@ package c15mux
 
 import (
 	"context"
+	"encoding/binary"
 	"errors"
 	"fmt"
+	"hash/crc32"
 	"math"
 	"os"
 	"runtime"
@@ -50,7 +52,7 @@ type KeySpec struct {
 type Config struct {
 	LRU     bool      `json:"lru"`     // false: map facade
 	Cap     int64     `json:"cap"`     // LRU capacity (1, 2, 4, 100)
-	Workers int       `json:"workers"` // 1, 2, 3, 7
+	Workers int       `json:"workers"` // 1, 2, 3, 7, powers of two 4, 8, 16, even composites 6, 12; 0: the default
 	Keys    []KeySpec `json:"keys"`
 	Init    []bool    `json:"init"` // key i is in the store (not in the cache) when the case starts
 	// Sized: the values the store hands out implement cache.Value with a real Size()
@@ -226,6 +228,42 @@ var keyPool = []KeySpec{
 	{T: "UInt16", N: 5}, {T: "UInt32", N: 5},
 	{T: "String", S: "a"}, {T: "String", S: "b"}, {T: "String", S: ""},
 	{T: "Int64CRC", N: 5}, {T: "Int32CRC", N: -1}, {T: "UInt64CRC", N: 7}, {T: "IntCRC", N: -1}, {T: "UIntCRC", N: 5}, {T: "UInt32CRC", N: 5},
+	// members of the colliding pairs below (drawn alone here, together by genConfig's "collide")
+	{T: "String", S: "plumless"}, {T: "String", S: "buckeroo"},
+	{T: "Int64CRC", N: 8707220088508893435}, {T: "Int64CRC", N: 6952224888926477812},
+}
+
+// collidePairs: two DISTINCT keys of ONE type with one hash (CRC32 collisions; the 4-byte CRC
+// types have none, CRC32 is a bijection on 4-byte messages). Such keys share a worker and
+// its cache for every group size, and they are equal for anything that tells keys apart by
+// their hash. init checks the constants against hash/crc32, independently of the library.
+var collidePairs = [][2]KeySpec{
+	{{T: "String", S: "plumless"}, {T: "String", S: "buckeroo"}},
+	{{T: "Int64CRC", N: 8707220088508893435}, {T: "Int64CRC", N: 6952224888926477812}},
+	{{T: "UInt64CRC", N: 3178207640853706025}, {T: "UInt64CRC", N: -4503805383194742616}},
+	{{T: "IntCRC", N: 2526260956146382955}, {T: "IntCRC", N: 8693052381721848684}},
+	{{T: "UIntCRC", N: 2239242318038195697}, {T: "UIntCRC", N: -4184860914996100238}},
+}
+
+// which pair a case gets: the string pair most often
+var collideGen = rapid.SampledFrom([]int{0, 0, 0, 0, 1, 2, 3, 4})
+
+func init() {
+	for _, p := range collidePairs {
+		var sum [2]uint32
+		for i, k := range p {
+			if k.T == "String" {
+				sum[i] = crc32.ChecksumIEEE([]byte(k.S))
+			} else {
+				var b [8]byte
+				binary.LittleEndian.PutUint64(b[:], uint64(k.N))
+				sum[i] = crc32.ChecksumIEEE(b[:])
+			}
+		}
+		if sum[0] != sum[1] || p[0] == p[1] {
+			panic(fmt.Sprintf("c15mux: %+v and %+v are not a CRC32 collision (%#x, %#x)", p[0], p[1], sum[0], sum[1]))
+		}
+	}
 }
 
 func keyID(h mux.Hashed2Int) string { return fmt.Sprintf("%T(%#v)", h, h) }
@@ -256,7 +294,9 @@ func genConfig(t *rapid.T) Config {
 	}
 	// (0: no WithSize option, the group takes its default number of workers)
 	// - rarely, it costs 127 goroutines per case: about 1 case in 250 in the quick tier, 1 in 60 in the thorough one
-	c.Workers = rapid.SampledFrom([]int{1, 2, 3, 7}).Draw(t, "workers")
+	// (4, 8, 16: group sizes for which "hash mod size" and "hash and (size-1)" differ on negative hashes;
+	// 6, 12: even composites)
+	c.Workers = rapid.SampledFrom([]int{1, 2, 3, 7, 1, 2, 3, 7, 4, 8, 16, 6, 12}).Draw(t, "workers")
 	if x := rapid.IntRange(0, 255).Draw(t, "defaultworkers"); x == 137 || (vkit.Tier() == "thorough" && x%64 == 9) {
 		c.Workers = 0
 	}
@@ -270,6 +310,16 @@ func genConfig(t *rapid.T) Config {
 		c.FacadeYields = rapid.IntRange(0, 3).Draw(t, "facadeyields")
 	}
 	seen := map[string]bool{}
+	if rapid.IntRange(0, 7).Draw(t, "collide") == 0 {
+		// two distinct keys of one type with one hash, both in the case
+		p := collidePairs[collideGen.Draw(t, "collidepair")]
+		for _, k := range p {
+			h, _ := k.build()
+			seen[keyID(h)] = true
+			c.Keys = append(c.Keys, k)
+		}
+		n = max(n, 2)
+	}
 	for len(c.Keys) < n {
 		k := genKey(t)
 		h, _ := k.build()
@@ -403,7 +453,14 @@ func GenGate(t *rapid.T) CaseGate {
 	if rapid.IntRange(0, 7).Draw(t, "gatecancel") == 0 {
 		c.Gate.Cancel, c.Gate.CancelAt = cInside, c.GateAt
 	}
-	for i, n := 0, rapid.IntRange(1, 6).Draw(t, "nqueued"); i < n; i++ {
+	nq := rapid.IntRange(1, 6).Draw(t, "nqueued")
+	if rapid.IntRange(0, 15).Draw(t, "burst") == 0 {
+		// a long burst: 10-20 followers accepted one after the other, in a queue that takes them all
+		// (or, rarely, refuses the tail)
+		nq = rapid.IntRange(10, 20).Draw(t, "nburst")
+		c.Deep = rapid.SampledFrom([]int{0, 0, 0, 32, 12}).Draw(t, "burstdeep")
+	}
+	for i := 0; i < nq; i++ {
 		op := genOp(t, c.Config)
 		nearKey(&op)
 		genCancel(t, &op, true)
@@ -1455,11 +1512,17 @@ func labelConfig(res *vkit.Result, c Config, h *harness) {
 		res.Class("plain-values")
 	}
 	seen := map[int]bool{}
-	for _, hv := range h.hashes {
+	seenT := map[string]bool{}
+	for i, hv := range h.hashes {
 		if seen[hv] {
 			res.Class("keys-with-equal-hash")
 		}
 		seen[hv] = true
+		if th := fmt.Sprintf("%s/%d", c.Keys[i].T, hv); seenT[th] {
+			res.Class("distinct-keys-of-one-type-with-equal-hash")
+		} else {
+			seenT[th] = true
+		}
 	}
 }
 
@@ -1843,7 +1906,7 @@ func ExecGate(c CaseGate) *vkit.Result {
 	default:
 		res.Class("gate-not-reached")
 	}
-	behindSameKey, adds := 0, 0
+	behindSameKey, adds, behind := 0, 0, 0
 	for i, op := range c.Queued {
 		if !validOp(op, len(h.keys)) {
 			res.Skip("malformed-op")
@@ -1870,6 +1933,9 @@ func ExecGate(c CaseGate) *vkit.Result {
 		q.parked = !q.op.Done()
 		// (the gated operation is unfinished while the gate holds its worker, even if its caller's context ended and the caller has gone)
 		q.r.early = !q.parked && (gateHeld || !g.op.Done())
+		if gateHeld && q.parked {
+			behind++
+		}
 		if gateHeld {
 			switch {
 			case q.parked && op.Key == c.Gate.Key:
@@ -2035,6 +2101,12 @@ func ExecGate(c CaseGate) *vkit.Result {
 	}
 	if adds >= 2 {
 		res.Class("two-adds-queued-on-the-gated-key")
+	}
+	if behind >= 9 {
+		res.Class("nine-or-more-requests-queued-behind-the-gated-operation")
+		if behindSameKey >= 9 {
+			res.Class("nine-or-more-requests-queued-on-the-gated-key")
+		}
 	}
 	res.NonTrivial = gateHeld && behindSameKey >= 1
 	return res
@@ -2305,14 +2377,14 @@ func ExecConc(c CaseConc) *vkit.Result {
 
 var PartSeq = &vkit.Part[Case]{
 	Property: Property, Name: "sequential",
-	Rule:  "rapid: {map | LRU cap 1,2,4,100} x workers {1,2,3,7} x 1-6 keys of 16 Hashed2Int types (pool with MinInt64-, negative-, zero-, equal-hashed keys + random values), each key initially in the store or not; values are plain (count 1) or, in half of the LRU and a quarter of the map configurations, implement cache.Value with a Size() drawn per write from {1,1,1,2,cap-1,cap,cap+1,3*cap}, so that cached entries grow and shrink across the capacity; 1-30 operations of the 7 kinds (DoGet is the coherence probe: it is a generated operation, not run after every step) + one closing DoGet per key; fault plan: 0-8 of 'the n-th invocation of load/add/update/upsert/delete fails without effect, as plain error or as not-found'; in half of the histories each operation's own context may end before the call or inside its 1st/2nd store callback (which still takes effect), and the history then waits for idle workers (vkit.Sched quiescence). Oracle per operation: callbacks follow the documented order (an operation may be abandoned only after its caller's context ended), only inside the operation, never overlapping per key; every existing item handed to update/upsert and every value DoGet serves without load equals the store's current value; result = the operation's own last callback result (or the caller's context error once its context ended); cache knowledge per key (certainly cached by observation / by the write-through policy, maybe, certainly not; no assumption on which keys share a worker; a value bigger than the LRU capacity is certainly not cached after it was set and may have evicted every other key, a set that fits evicts others only if the sizes of everything possibly cached may exceed the capacity): a certainly-uncached key served from cache (incl. after a successful delete) or a certainly-cached key bypassed (incl. DoAdd reaching the store) is a violation. Non-trivial: >= 1 injected failure was hit and >= 1 key was touched by two operations; distinct = distinct case JSON",
+	Rule:  "rapid: {map | LRU cap 1,2,4,100} x workers {1,2,3,7 | 4,8,16 | 6,12} x 1-6 keys of 16 Hashed2Int types (pool with MinInt64-, negative-, zero-, equal-hashed keys + random values; in about 1 case in 6 two distinct keys of one type with one hash: CRC32 collisions of String and the 8-byte CRC types), each key initially in the store or not; values are plain (count 1) or, in half of the LRU and a quarter of the map configurations, implement cache.Value with a Size() drawn per write from {1,1,1,2,cap-1,cap,cap+1,3*cap}, so that cached entries grow and shrink across the capacity; 1-30 operations of the 7 kinds (DoGet is the coherence probe: it is a generated operation, not run after every step) + one closing DoGet per key; fault plan: 0-8 of 'the n-th invocation of load/add/update/upsert/delete fails without effect, as plain error or as not-found'; in half of the histories each operation's own context may end before the call or inside its 1st/2nd store callback (which still takes effect), and the history then waits for idle workers (vkit.Sched quiescence). Oracle per operation: callbacks follow the documented order (an operation may be abandoned only after its caller's context ended), only inside the operation, never overlapping per key; every existing item handed to update/upsert and every value DoGet serves without load equals the store's current value; result = the operation's own last callback result (or the caller's context error once its context ended); cache knowledge per key (certainly cached by observation / by the write-through policy, maybe, certainly not; no assumption on which keys share a worker; a value bigger than the LRU capacity is certainly not cached after it was set and may have evicted every other key, a set that fits evicts others only if the sizes of everything possibly cached may exceed the capacity): a certainly-uncached key served from cache (incl. after a successful delete) or a certainly-cached key bypassed (incl. DoAdd reaching the store) is a violation. Non-trivial: >= 1 injected failure was hit and >= 1 key was touched by two operations; distinct = distinct case JSON",
 	Quick: 20000, Thorough: 80000,
 	Gen: GenSeq, Exec: ExecSeq,
 }
 
 var PartGate = &vkit.Part[CaseGate]{
 	Property: Property, Name: "gated",
-	Rule:  "rapid: same configurations; 0-3 prologue operations one after the other; then one operation whose 1st/2nd store callback blocks on a harness gate (its worker is occupied); then 1-4 operations (60% on the gated key) called one at a time, each on its own goroutine and confirmed parked or returned at vkit.Sched quiescence before the next, so the acceptance order is known; contexts end before the call / while queued / inside a callback; then the gate opens and everything must return. Oracle: per key the store callbacks run in acceptance order, and all oracles of the sequential part are applied in acceptance order (an add queued behind an operation that caches its key is a duplicate with zero store calls, an operation queued behind a successful delete finds the key uncached, ...); a DoGet served from the cache while an earlier operation is in flight is judged as a read of the last completed state. Where an LRU could evict (cap < keys) certainty about 'cached' is dropped after each step. Non-trivial: the gate was reached and >= 1 operation on the gated key was parked behind it; distinct = distinct case JSON",
+	Rule:  "rapid: same configurations; 0-3 prologue operations one after the other; then one operation whose 1st/2nd store callback blocks on a harness gate (its worker is occupied); then 1-6 operations, in about 1 case in 16 a burst of 10-20 with queue depth default/32/12 (60% on the gated key), called one at a time, each on its own goroutine and confirmed parked or returned at vkit.Sched quiescence before the next, so the acceptance order is known; contexts end before the call / while queued / inside a callback; then the gate opens and everything must return. Oracle: per key the store callbacks run in acceptance order, and all oracles of the sequential part are applied in acceptance order (an add queued behind an operation that caches its key is a duplicate with zero store calls, an operation queued behind a successful delete finds the key uncached, ...); a DoGet served from the cache while an earlier operation is in flight is judged as a read of the last completed state. Where an LRU could evict (cap < keys) certainty about 'cached' is dropped after each step. Non-trivial: the gate was reached and >= 1 operation on the gated key was parked behind it; distinct = distinct case JSON",
 	Quick: 4000, Thorough: 12000,
 	Gen: GenGate, Exec: ExecGate,
 }
